@@ -208,6 +208,7 @@ class WindowedMeanSquaredError(
     def merge_state(
         self: TWindowedMeanSquaredError, metrics: Iterable[TWindowedMeanSquaredError]
     ) -> TWindowedMeanSquaredError:
+        metrics = list(metrics)  # the iterable is traversed more than once
         merge_max_num_updates = self.max_num_updates
         for metric in metrics:
             merge_max_num_updates += metric.max_num_updates
